@@ -105,22 +105,38 @@ def run_case(d):
     try:
         if k == "lwr":
             r = arr(d["r"])
+            if d.get("layout") == "view":       # what every caller passes: a transposed (non-contiguous) view
+                r = np.ascontiguousarray(r.transpose(1, 2, 0)).transpose(2, 0, 1)
+            elif d.get("layout") == "fortran":
+                r = np.asfortranarray(r)
+            r0 = r.copy()
             a, s = alg.lwr_recursion(r)
-            return {"a": hexl(a), "sigma": hexl(s), "shape": list(np.shape(a))}
+            return {"a": hexl(a), "sigma": hexl(s), "shape": list(np.shape(a)), "mutated": bool(not np.array_equal(r, r0))}
         if k == "ld":
             r = arr(d["r"])
             w, b = alg.AR_est_LD(None, d["order"], rxx=r)
             return {"w": hexl(w), "b": hexl(b)}
         if k == "cov":
             x = arr(d["x"])
+            x0 = x.copy()
+            kw = {}
+            if d["nlags"] is not None or d.get("explicit_none"):
+                kw["nlags"] = d["nlags"]          # otherwise the keyword is omitted (default None = all N lags)
             if d.get("auto"):
-                rxy = ut.autocov_vector(x, nlags=d["nlags"])
+                rxy = ut.autocov_vector(x, **kw)
+            elif d.get("alias"):
+                rxy = ut.crosscov_vector(x, x, **kw)      # the same array object twice
             else:
-                rxy = ut.crosscov_vector(x, arr(d["y"]), nlags=d["nlags"])
-            return {"rxy": hexl(rxy), "shape": list(rxy.shape)}
+                rxy = ut.crosscov_vector(x, arr(d["y"]), **kw)
+            rxy = np.asarray(rxy)
+            return {"rxy": hexl(rxy), "shape": list(rxy.shape), "mutated": bool(not np.array_equal(x, x0))}
         if k == "mar":
             x = arr(d["x"])
-            a, e = alg.MAR_est_LWR(x, d["order"])
+            if d.get("rxx"):      # the optional precomputed autocovariance (layout of autocov_vector)
+                pre = np.array([[[float(v) for v in row] for row in m] for m in lagged_mean(x, x, d["order"] + 1)])
+                a, e = alg.MAR_est_LWR(x, d["order"], rxx=pre.transpose(1, 2, 0))
+            else:
+                a, e = alg.MAR_est_LWR(x, d["order"])
             return {"a": hexl(a), "ecov": hexl(e), "shape": list(np.shape(a))}
         if k == "fit":
             x1, x2 = arr(d["x1"]), arr(d["x2"])
@@ -131,7 +147,9 @@ def run_case(d):
             if d["criterion"] != "default":
                 kw["criterion"] = crit
             try:
-                o, Rxx, coef, ecov = gr.fit_model(x1, x2, max_order=d["max_order"], **kw)
+                if not d.get("default_max_order"):
+                    kw["max_order"] = d["max_order"]        # else omitted: the default (10)
+                o, Rxx, coef, ecov = gr.fit_model(x1, x2, **kw)
             except ValueError as e:
                 if d["order"] is None and "did not converge" in str(e):
                     return {"err": "ValueError", "noconv": True, "crit": hexl(table)}
@@ -146,7 +164,9 @@ def run_case(d):
                 kw["ij"] = [tuple(p) for p in d["ij"]]
             if d["order"] is not None:
                 kw["order"] = d["order"]
-            G = gr.GrangerAnalyzer(ts.TimeSeries(x, sampling_rate=1.0), max_order=d["max_order"], **kw)
+            if not d.get("default_max_order"):
+                kw["max_order"] = d["max_order"]
+            G = gr.GrangerAnalyzer(ts.TimeSeries(x, sampling_rate=1.0), **kw)
             got = {}
             try:
                 for name in d["read"]:                      # the attributes, in the seeded order
@@ -182,7 +202,10 @@ def run_case(d):
             if d["bic"]:
                 v = ut.bayesian_information_criterion(ecov, d["p"], d["m"], d["Ntotal"])
             else:
-                v = ut.akaike_information_criterion(ecov, d["p"], d["m"], d["Ntotal"], corrected=d["corrected"])
+                if d["corrected"] or d.get("explicit_corrected"):
+                    v = ut.akaike_information_criterion(ecov, d["p"], d["m"], d["Ntotal"], corrected=d["corrected"])
+                else:
+                    v = ut.akaike_information_criterion(ecov, d["p"], d["m"], d["Ntotal"])
             return {"L": L.hex(), "lN": lN.hex(), "value": float(v).hex()}
     except Exception as e:  # noqa
         return {"err": type(e).__name__, "msg": str(e)[:200]}
@@ -240,11 +263,14 @@ def case_coq(d, o):
         return "(KLd %s %s %s %s)" % (fvec(arr(d["r"])), nlit(d["order"]), fvec(w), flit(float(b)))
     if k == "cov":
         x = arr(d["x"])
-        y = x if d.get("auto") else arr(d["y"])
         rxy = arr(o["rxy"]).reshape(o["shape"])
         if not all_finite(rxy):
             return None
-        return "(KCov %s %s %s %s)" % (fmat(x), fmat(y), nlit(d["nlags"]), f3(rxy))
+        y = x if (d.get("auto") or d.get("alias")) else arr(d["y"])
+        if rxy.ndim != 3:
+            return None
+        nl = "None" if d["nlags"] is None else "(Some %s)" % nlit(d["nlags"])
+        return "(KCov %s %s %s %s)" % (fmat(x), fmat(y), nl, f3(rxy))
     if k == "mar":
         a, e = arr(o["a"]).reshape(o["shape"]), arr(o["ecov"])
         if not all_finite(a, e):
@@ -371,6 +397,8 @@ def oracle(d, o):
         f = yw_check(key, r, a, s)
         if f:
             return f
+        if o.get("mutated"):
+            return Fail(key + "/input-modified", "the covariance sequence handed in was modified", None, "unchanged")
         if d.get("pd"):
             ev = np.linalg.eigvalsh((s + s.T) / 2)
             if ev.min() <= 0:
@@ -400,9 +428,11 @@ def oracle(d, o):
         return None
     if k == "cov":
         x = arr(d["x"])
-        y = x if d.get("auto") else arr(d["y"])
-        nl = d["nlags"]
+        y = x if (d.get("auto") or d.get("alias")) else arr(d["y"])
         nc, N = x.shape
+        nl = d["nlags"] if d["nlags"] is not None else N      # nlags=None (the default): all N lags
+        if o.get("mutated"):
+            return Fail(key + "/input-modified", "the data array was modified by the call", None, "unchanged")
         if o["shape"] != [nc, y.shape[0], nl]:
             return Fail(key + "/shape", "result shape %s" % o["shape"], o["shape"], [nc, y.shape[0], nl])
         rxy = arr(o["rxy"]).reshape(o["shape"])
@@ -418,8 +448,17 @@ def oracle(d, o):
                     want = W[kk][i][j]
                     got = rxy[i, j, kk]
                     if not np.isfinite(got) or abs(F(got) - want) > Fraction(1e-11) * (1 + abs(want)):
-                        return Fail(key + "/lagged-mean", "rxy[%d,%d,%d] differs from the lagged average" % (i, j, kk),
+                        return Fail(key + "/lagged-mean", "rxy[%d,%d,%d] differs from the lagged average%s"
+                                    % (i, j, kk, " (nlags omitted: default None)" if d["nlags"] is None else ""),
                                     float(got), float(want))
+        if d.get("feed") and (d.get("auto") or d.get("alias")) and nl > d["feed"]:
+            # the first P+1 lags of the helper's output, fed to the recursion, must solve the block
+            # Yule-Walker system of the data's own lagged averages
+            import nitime.algorithms as alg
+            P = d["feed"]
+            a, sg = alg.lwr_recursion(np.array(rxy.transpose(2, 0, 1)[:P + 1]))
+            return yw_check(key + "/feed-lwr", lagged_mean_f(x, P + 1), a, sg,
+                            what="lwr_recursion on the first %d lags of the helper's output: " % (P + 1))
         return None
     if k == "mar":
         x = arr(d["x"])
@@ -631,6 +670,7 @@ def gen_lwr(ctx, rs):
         if p == sorted(p):
             p = p[1:] + p[:1]
         d["perm"] = [int(v) for v in p]
+    d["layout"] = str(rs.choice(["c", "view", "view", "fortran"]))
     return d
 
 
@@ -672,11 +712,41 @@ def gen_cov(ctx, rs):
     nl = int(rs.randint(1, min(N, 8) + 1))
     if rs.rand() < 0.15:
         nl = N
+    r = rs.rand()
+    if r < 0.3:                          # the default keyword: nlags omitted / None = all N lags
+        N = int(rs.randint(2, ctx.scale(24, 40)))
+        nl = None
+    elif r < 0.45:
+        nl = int(rs.choice([N, max(1, N - 1), 1]))
     x = grid(rs.randn(nc, N), 10)
-    if rs.rand() < 0.5:
-        return {"kind": "cov", "auto": True, "x": hexl(x), "nlags": nl}
-    y = grid(rs.randn(nc, N), 10)       # x, y : (nc, N) as documented
-    return {"kind": "cov", "auto": False, "x": hexl(x), "y": hexl(y), "nlags": nl}
+    d = {"kind": "cov", "auto": False, "x": hexl(x), "nlags": nl}
+    if nl is None and rs.rand() < 0.3:
+        d["explicit_none"] = True
+    r = rs.rand()
+    if r < 0.4:
+        d["auto"] = True
+    elif r < 0.55:
+        d["alias"] = True                # crosscov_vector(x, x): the same object twice
+    else:
+        d["y"] = hexl(grid(rs.randn(nc, N), 10))       # x, y : (nc, N) as documented
+    return d
+
+
+def gen_cov_feed(ctx, rs):
+    """all lags of coloured data by the default keyword, then the recursion on the first P+1 of them"""
+    for _ in range(100):
+        nc = int(rs.randint(1, 3))
+        N = int(rs.choice([32, 48, 64]))
+        x = coloured(rs, nc, N, bits=6)
+        P = int(rs.randint(1, 4))
+        R = lagged_mean_f(x, P + 1)
+        if leading_min_sv(R / np.abs(R).max()) > 0.02:
+            d = {"kind": "cov", "auto": bool(rs.rand() < 0.6), "x": hexl(x), "nlags": None if rs.rand() < 0.7 else N,
+                 "feed": P}
+            if not d["auto"]:
+                d["alias"] = True
+            return d
+    raise RuntimeError("no well-conditioned record found")
 
 
 # record lengths beyond every power-of-two / block boundary up to the quantifier's 4096
@@ -771,6 +841,8 @@ def gen_ga(ctx, rs):
     read = [read[k] for k in rs.permutation(4)]
     d = {"kind": "ga", "x": hexl(x), "ij": None if ij is None else [[int(i), int(j)] for i, j in ij], "order": order,
          "max_order": int(rs.choice([6, 10, 10])), "read": read}
+    if d["max_order"] == 10 and rs.rand() < 0.5:
+        d["default_max_order"] = True
     if ij is None:
         d["kpair"] = [1, 0]
     else:
@@ -790,7 +862,10 @@ def gen_mar(ctx, rs):
     nc = int(rs.randint(1, 4))
     order = int(rs.randint(0, 5))
     N = int(rs.choice([16, 24, 32, 48, 64]))
-    return {"kind": "mar", "x": hexl(coloured(rs, nc, N)), "order": order}
+    d = {"kind": "mar", "x": hexl(coloured(rs, nc, N)), "order": order}
+    if rs.rand() < 0.25:
+        d["rxx"] = True                  # with the optional precomputed autocovariance of the same data
+    return d
 
 
 def gen_fit(ctx, rs):
@@ -798,6 +873,7 @@ def gen_fit(ctx, rs):
     x = coloured(rs, 2, N)
     r = rs.rand()
     d = {"kind": "fit", "x1": hexl(x[0]), "x2": hexl(x[1]), "order": None, "max_order": 10, "criterion": "default"}
+    d["_dm"] = bool(rs.rand() < 0.5)
     if r < 0.35:
         d["order"] = int(rs.randint(0, 6))
         d["max_order"] = int(rs.choice([0, 1, 3, 10]))
@@ -817,6 +893,21 @@ def gen_fit(ctx, rs):
     return d
 
 
+def _default_kw(d):
+    """when the generated max_order is the default (10), half of the calls omit the keyword"""
+    dm = d.pop("_dm", False)
+    if dm and d["max_order"] == 10:
+        d["default_max_order"] = True
+    return d
+
+
+_gen_fit_raw = gen_fit
+
+
+def gen_fit(ctx, rs):  # noqa
+    return _default_kw(_gen_fit_raw(ctx, rs))
+
+
 def gen_gen(ctx, rs):
     nc = int(rs.randint(1, 4))
     order = int(rs.randint(1, 4))
@@ -829,6 +920,7 @@ def gen_gen(ctx, rs):
 def gen_crit(ctx, rs):
     p = int(rs.randint(1, 5))
     return {"kind": "crit", "bic": bool(rs.rand() < 0.5), "corrected": bool(rs.rand() < 0.5),
+            "explicit_corrected": bool(rs.rand() < 0.5),
             "ecov": hexl(rand_cov(rs, p)), "p": p, "m": int(rs.randint(0, 12)), "Ntotal": int(rs.randint(40, 5000))}
 
 
@@ -848,7 +940,8 @@ def klass0(d):
     if k == "fit":
         return "fit/%s/%s" % ("fixed" if d["order"] is not None else "select", d["criterion"])
     if k == "cov":
-        return "cov/%s" % ("auto" if d.get("auto") else "cross")
+        return "cov/%s/%s%s" % ("auto" if d.get("auto") else ("alias" if d.get("alias") else "cross"),
+                                "nlags-default" if d["nlags"] is None else "nlags-given", "/feed-lwr" if d.get("feed") else "")
     if k == "mar":
         return "mar/order%d" % d["order"]
     if k == "ga":
@@ -886,7 +979,8 @@ def run(ctx):
     rs = np.random.RandomState(ctx.rng.getrandbits(32))
     plan = [(gen_lwr, ctx.scale(90, 500)), (gen_lwr_free, ctx.scale(20, 80)), (gen_ld, ctx.scale(20, 80)),
             (gen_cov, ctx.scale(40, 200)), (gen_mar, ctx.scale(30, 150)), (gen_fit, ctx.scale(40, 200)),
-            (gen_gen, ctx.scale(30, 150)), (gen_crit, ctx.scale(30, 100)), (gen_ga, ctx.scale(30, 120))]
+            (gen_gen, ctx.scale(30, 150)), (gen_crit, ctx.scale(30, 100)), (gen_ga, ctx.scale(30, 120)),
+            (gen_cov_feed, ctx.scale(10, 40))]
     calls = corpus_calls()
     for g, n in plan:
         calls += [g(ctx, rs) for _ in range(n)]
@@ -919,7 +1013,9 @@ def run(ctx):
                          "in every run integer-valued long records N in {513..4096, incl. 1025, 2049, primes} through "
                          "crosscov/autocov, MAR_est_LWR, fit_model, generate_mar (exact integer lagged sums as oracle; a few "
                          "also in K); GrangerAnalyzer order/autocov/model_coef/error_cov for ij lists with both orientations, "
-                         "repeated pairs, shuffled orders and attribute read orders. "
+                         "repeated pairs, shuffled orders and attribute read orders; public keywords at their defaults (nlags "
+                         "omitted/None = all N lags, also fed to lwr_recursion; max_order omitted; corrected omitted; "
+                         "MAR_est_LWR rxx=; crosscov_vector(x, x) aliasing; C/Fortran/transposed-view r). "
                          "non-trivial = the call returned a value")
     return ctx.finish(
         trusted=["numpy/scipy kernels used by the anchored code (dot, linalg.inv, linalg.det, log, mean, "
